@@ -3,6 +3,9 @@ from core import Unit as U
 # The usual memory-safety/overflow checks of these functions belong to C05/C07; they are switched off here
 # (NOCHK) in units whose arithmetic would otherwise be dragged into the solver - the C06 obligation is the
 # trace equality only.  slice_formula drops all arithmetic that cannot reach a branch condition.
+# GAP (audit 2 #28): the C06 units are the only units that execute the bodies of ecmult_gen, ecmult_const and
+# modinv64 at all (everywhere else they are replaced by contracts), and they do so with the safety checks off:
+# memory safety / signed overflow / shift checks of those three bodies are discharged by NO unit of the framework.
 NOCHK = ["--no-bounds-check", "--no-pointer-check", "--no-signed-overflow-check", "--no-undefined-shift-check",
          "--no-div-by-zero-check"]
 def CT(name, harness, entry, functions, object_bits=None, **kw):
@@ -11,10 +14,10 @@ def CT(name, harness, entry, functions, object_bits=None, **kw):
     kw.setdefault("flags", NOCHK)
     kw.setdefault("min_obl", 2)
     return U("C06." + name, ["C06"], "harness/C06/" + harness, entry, branch=True, functions=functions, object_bits=object_bits, **kw)
-LEN = dict(unwind=194, closed_by="public len <= 192 fully unwound, unwinding assertions prove the bound (all call sites in src/ pass constants <= 162)")
+LEN = dict(unwind=194, bounded="public len <= 192 (harness assume; every call site in src/ passes a constant <= 162)", closed_by="public len <= 192 fully unwound, unwinding assertions prove the bound (all call sites in src/ pass constants <= 162)")
 SCALAR_BASIC = ["secp256k1_scalar_" + f for f in "cmov cond_negate negate add cadd_bit half set_b32 set_b32_seckey get_b32 is_zero is_one is_even is_high eq check_overflow reduce get_bits_limb32 clear".split()]
 FE_BASIC = ["secp256k1_fe_" + f for f in "cmov storage_cmov normalize normalize_weak normalizes_to_zero negate add mul_int add_int half to_storage from_storage is_odd is_zero equal get_b32 set_b32_mod set_b32_limit clear".split()]
-GROUP_BASIC = ["secp256k1_ge_storage_cmov", "secp256k1_gej_cmov", "secp256k1_ge_to_storage", "secp256k1_ge_from_storage", "secp256k1_gej_set_ge", "secp256k1_ge_neg", "secp256k1_gej_neg", "secp256k1_gej_rescale", "secp256k1_ge_mul_lambda", "secp256k1_ge_clear", "secp256k1_gej_clear"]
+GROUP_BASIC = ["secp256k1_ge_storage_cmov", "secp256k1_gej_cmov"]
 MOD = ["--replace-calls", "secp256k1_gej_add_ge:ct_havoc_gej_add_ge", "--replace-calls", "secp256k1_gej_double:ct_havoc_gej_double"]
 ODD = ["--replace-calls", "secp256k1_ecmult_const_odd_multiples_table_globalz:ct_stub_odd_multiples_table_globalz"]
 UNITS = [
@@ -23,8 +26,9 @@ UNITS = [
     CT("int_cmov", "util.c", "h_ct_int_cmov", ["secp256k1_int_cmov"]),
     CT("scalar_basic", "scalar.c", "h_ct_scalar_basic", SCALAR_BASIC, min_obl=20),
     CT("scalar_mul", "scalar.c", "h_ct_scalar_mul", ["secp256k1_scalar_mul", "secp256k1_scalar_sqr", "secp256k1_scalar_mul_512", "secp256k1_scalar_sqr_512", "secp256k1_scalar_reduce_512"]),
-    CT("scalar_inverse", "scalar.c", "h_ct_scalar_inverse", ["secp256k1_scalar_inverse", "secp256k1_modinv64", "secp256k1_modinv64_divsteps_59", "secp256k1_modinv64_update_de_62", "secp256k1_modinv64_update_fg_62", "secp256k1_modinv64_normalize_62"]),
-    CT("scalar_split_lambda", "scalar.c", "h_ct_scalar_split_lambda", ["secp256k1_scalar_split_lambda", "secp256k1_scalar_split_128", "secp256k1_scalar_mul_shift_var"]),
+    CT("scalar_inverse", "scalar.c", "h_ct_scalar_inverse", ["secp256k1_scalar_inverse", "secp256k1_modinv64", "secp256k1_modinv64_divsteps_59", "secp256k1_modinv64_update_de_62", "secp256k1_modinv64_update_fg_62", "secp256k1_modinv64_normalize_62"],
+       note="safety checks of the modinv64 body are OFF here and discharged nowhere (see GAP above)"),
+    CT("scalar_split_lambda", "scalar.c", "h_ct_scalar_split_lambda", ["secp256k1_scalar_split_lambda", "secp256k1_scalar_mul_shift_var"]),
     CT("fe_basic", "field.c", "h_ct_fe_basic", FE_BASIC, min_obl=20),
     CT("fe_mul", "field.c", "h_ct_fe_mul", ["secp256k1_fe_mul", "secp256k1_fe_sqr", "secp256k1_fe_mul_inner", "secp256k1_fe_sqr_inner"]),
     CT("fe_inv", "field.c", "h_ct_fe_inv", ["secp256k1_fe_inv", "secp256k1_modinv64"]),
@@ -39,8 +43,8 @@ UNITS = [
     CT("ecmult_gen", "ecmult.c", "h_ct_ecmult_gen", ["secp256k1_ecmult_gen"], min_obl=3, extra_instrument=[MOD],
        note="modular; COMB 2x5 preset (26 outer iterations, doubling path exercised)"),
     CT("ecmult_gen_scan", "ecmult.c", "h_ct_ecmult_gen_scan", ["secp256k1_ecmult_gen"], min_obl=6,
-       extra_instrument=[MOD + ["--replace-calls", "secp256k1_ge_storage_cmov:ct_log_ge_storage_cmov"]],
-       note="address log: ge_storage_cmov calls redirected to a logging wrapper with the same data effect; modular; COMB 2x5 preset"),
+       extra_instrument=[MOD + ["--replace-calls", "secp256k1_fe_storage_cmov:ct_log_fe_storage_cmov"]],
+       note="address log: fe_storage_cmov calls redirected to a logging wrapper with the same data effect; modular; COMB 2x5 preset"),
     CT("const_table_get", "ecmult.c", "h_ct_const_table_get", ["ECMULT_CONST_TABLE_GET_GE"], min_obl=6,
        extra_instrument=[["--replace-calls", "secp256k1_fe_impl_cmov:ct_log_fe_cmov"]],
        note="macro instantiated on a harness-owned public table; fe_cmov calls redirected to a logging wrapper"),
@@ -49,17 +53,17 @@ UNITS = [
        assumed=["secp256k1_ecmult_const_odd_multiples_table_globalz"],
        note="modular; public point; the variable-time-in-the-point precomputation is replaced by 'same arbitrary table in both runs' (it receives public data only)"),
     CT("ecmult_gen_whole", "ecmult.c", "h_ct_ecmult_gen", ["secp256k1_ecmult_gen"], min_obl=3, tier="thorough", timeout=1800, object_bits=16,
-       note="every callee real; COMB 2x5 preset"),
+       note="every callee real; COMB 2x5 preset; safety checks of the body are OFF here and discharged nowhere (see GAP above)"),
     CT("ecmult_gen_whole_big", "ecmult.c", "h_ct_ecmult_gen", ["secp256k1_ecmult_gen"], min_obl=3, defs=["VERIF_BIG_TABLES"], tier="thorough", timeout=1800, object_bits=16,
        note="every callee real; shipped COMB 43x6"),
     CT("ecmult_gen_scan_big", "ecmult.c", "h_ct_ecmult_gen_scan", ["secp256k1_ecmult_gen"], min_obl=6, defs=["VERIF_BIG_TABLES"], tier="thorough", timeout=1800, object_bits=16,
-       extra_instrument=[MOD + ["--replace-calls", "secp256k1_ge_storage_cmov:ct_log_ge_storage_cmov"]], note="modular; shipped COMB 43x6"),
+       extra_instrument=[MOD + ["--replace-calls", "secp256k1_fe_storage_cmov:ct_log_fe_storage_cmov"]], note="modular; shipped COMB 43x6"),
     CT("ecmult_const_whole", "ecmult.c", "h_ct_ecmult_const", ["secp256k1_ecmult_const"], min_obl=3, tier="thorough", timeout=1800, object_bits=16,
        extra_instrument=[ODD], assumed=["secp256k1_ecmult_const_odd_multiples_table_globalz"],
-       note="every constant-time callee real; public point; precomputation as in C06.ecmult_const"),
+       note="every constant-time callee real; public point; precomputation as in C06.ecmult_const; safety checks of the body are OFF here and discharged nowhere (see GAP above)"),
     # --- hashing over secret data ---
     CT("sha256_write", "sha256.c", "h_ct_sha256_write", ["secp256k1_sha256_write", "secp256k1_sha256_transform", "secp256k1_sha256_transform_impl"],
-       unwind=6, closed_by="public len <= 200 (<= 3 direct blocks) unwound; unwinding assertions prove the bound",
+       unwind=6, bounded="public len <= 200 (harness assume; <= 3 direct blocks)",
        note="secret: data, state, buffer; public: len, byte counter (both symbolic)"),
     CT("sha256_finalize", "sha256.c", "h_ct_sha256_finalize", ["secp256k1_sha256_finalize", "secp256k1_sha256_write"], unwind=10,
        tier="thorough", timeout=1200, note="secret: state, buffer; public: byte counter (fully symbolic, < 2^60)"),
@@ -67,10 +71,10 @@ UNITS = [
        bounded="byte counter in 0..63 (all residues mod 64); unbounded unit C06.sha256_finalize is in the thorough tier",
        note="secret: state, buffer"),
     CT("hmac", "sha256.c", "h_ct_hmac", ["secp256k1_hmac_sha256_initialize", "secp256k1_hmac_sha256_write", "secp256k1_hmac_sha256_finalize"], unwind=66,
-       note="concrete public key lengths 32 and 100"),
-    CT("rfc6979_64", "sha256.c", "h_ct_rfc6979", ["secp256k1_rfc6979_hmac_sha256_initialize", "secp256k1_rfc6979_hmac_sha256_generate"], unwind=66, defs=["KEYLEN=64"],
+       bounded="key lengths 32 and 100, message length 32 (the lengths used in src/)", note="concrete public lengths"),
+    CT("rfc6979_64", "sha256.c", "h_ct_rfc6979", ["secp256k1_rfc6979_hmac_sha256_initialize", "secp256k1_rfc6979_hmac_sha256_generate"], unwind=66, defs=["KEYLEN=64"], bounded="64 bytes of key material, two generate(32) calls",
        note="64 bytes of key material (ecmult_gen_blind, nonce function without extra data)"),
-    CT("rfc6979_112", "sha256.c", "h_ct_rfc6979", ["secp256k1_rfc6979_hmac_sha256_initialize", "secp256k1_rfc6979_hmac_sha256_generate"], unwind=66, defs=["KEYLEN=112"],
+    CT("rfc6979_112", "sha256.c", "h_ct_rfc6979", ["secp256k1_rfc6979_hmac_sha256_initialize", "secp256k1_rfc6979_hmac_sha256_generate"], unwind=66, defs=["KEYLEN=112"], bounded="112 bytes of key material, two generate(32) calls",
        tier="thorough", note="112 bytes of key material (nonce function with extra data and algo16)"),
     # --- API level, with declassification points ---
     CT("sign_inner", "sign.c", "h_ct_sign_inner", ["secp256k1_ecdsa_sign_inner"], unwind=34, min_obl=4,
@@ -78,7 +82,13 @@ UNITS = [
                           "--replace-calls", "secp256k1_ecmult_gen:ct_stub_ecmult_gen", "--replace-calls", "secp256k1_ge_set_gej:ct_stub_ge_set_gej",
                           "--replace-calls", "secp256k1_ec_commit_seckey:ct_stub_commit_seckey"]],
        bounded="retry loop <= 2 attempts",
-       note="two runs, independent secret keys (valid or not), declassified values (nonce bytes/verdicts) equal; sig_sign / rfc6979 / ecmult_gen / ge_set_gej / ec_commit_seckey stubbed; seeded defect C06-1"),
+       assumed=["nonce_function_rfc6979_impl"],
+       note="two runs, independent secret keys (valid or not) AND independent nonce bytes; only the declassified bits are equal (nonce validity, nonce-function return value, sig_sign / commit verdicts). Replaced callees: sig_sign (C06.sig_sign), ec_commit_seckey (C06.commit_seckey), ecmult_gen (C06.ecmult_gen*), ge_set_gej (C06.ge_set_gej); rfc6979_impl assumed (its parts: C06.rfc6979_*, fixed lengths). Seeded defect C06-1"),
+    CT("sig_sign", "sign.c", "h_ct_sig_sign", ["secp256k1_ecdsa_sig_sign"],
+       extra_instrument=[["--replace-calls", "secp256k1_ecmult_gen:ct_stub_ecmult_gen", "--replace-calls", "secp256k1_ge_set_gej:ct_stub_ge_set_gej_any"]],
+       note="modular: ecmult_gen / ge_set_gej return arbitrary points (own units); scalar_inverse, scalar_mul, cond_negate real"),
+    CT("commit_seckey", "sign.c", "h_ct_commit_seckey", ["secp256k1_ec_commit_seckey", "secp256k1_ec_commit_tweak", "secp256k1_ec_seckey_tweak_add_helper"], unwind=10, bounded="hash byte counter 64, data length 32 (the s2c caller's values)",
+       note="secret: tweaked scalar, point coordinates, hash state, data; public: infinity flag, block-aligned byte counter"),
 ]
 # --- alternative limb configuration (10x26 field, 8x32 scalar, modinv32): same harnesses, thorough tier ---
 for _n, _h, _e, _f in [("scalar_basic", "scalar.c", "h_ct_scalar_basic", SCALAR_BASIC), ("scalar_mul", "scalar.c", "h_ct_scalar_mul", ["secp256k1_scalar_mul", "secp256k1_scalar_sqr"]),
